@@ -1,5 +1,7 @@
 """Spec predicates for the object table of a connection (C02, C03, C04)."""
 from pyvc.contracts import specpred, specfn
+from pyvc.specbuiltins import *
+from spec.letters import D
 
 CI = 'Obj("core.connection_impl.ConnectionImpl")'
 
@@ -14,9 +16,29 @@ def inv_conn(c):
                     for k in range(0, len(c.db[i])))
                 for i in c.db) and
             all(all(i == j or c.db[i] is not c.db[j] for j in c.db) for i in c.db) and
-            all(c.db[i] is not c.message_list for i in c.db))
+            all(c.db[i] is not c.message_list for i in c.db) and
+            all(allocated(c.db[i]) and all(allocated(c.db[i][k]) for k in range(0, len(c.db[i]))) for i in c.db))
 
 
 @specfn({'i': 'int'}, 'bool')
 def server_range(i):
     return i >= 0xff000000
+
+
+@specpred({'c': CI})
+def foreign(L, c):
+    """the list object L is not one of the incarnation lists of connection c"""
+    return all(c.db[i] is not L for i in c.db)
+
+
+CM = 'Obj("core.connection_manager.ConnectionManager")'
+
+
+@specpred({'m': CM})
+def inv_mgr(m):
+    """representation invariant of the connection manager: names are the letters of the creation index"""
+    return (m.connection_name_generator.index == len(m.connection_list) and m.connection_name_generator.index >= 0 and
+            all(D(m.connection_list[k]._name, 0, -1) == k and len(m.connection_list[k]._name) >= 1 for k in range(0, len(m.connection_list))) and
+            all(m.open_connections[i].open and inv_conn(m.open_connections[i]) and foreign(m.connection_list, m.open_connections[i]) and
+                m.open_connections[i].message_list is not m.connection_list for i in m.open_connections) and
+            all(all(i == j or m.open_connections[i] is not m.open_connections[j] for j in m.open_connections) for i in m.open_connections))
